@@ -13,8 +13,9 @@ RC = str.maketrans("ACGT", "TGCA")
 
 
 def qname(k):
-    # read names are free text: FASTQ-style names keep their '@', some pipelines prefix '#'
-    return ["q%d", "q%d", "@q%d", "q%d", "#q%d", "q%d"][k % 6] % k
+    # read names are free text: FASTQ-style names keep their '@', some pipelines prefix '#'; only U+0020 ends a name - a
+    # no-break space or an ideographic space is part of it (a form feed would end the name in the FASTA index of the reads)
+    return ["q%d", "q%d", "@q%d", "q%d", "#q%d", "q%d"][k % 6] % k + ["", "", "", "\u00a0ccs", "", "\u3000A/7", ""][k % 7]
 
 
 def make_line(k, fields, cgpos, rev, spaced):
@@ -83,6 +84,12 @@ def run_file(job):
         if st and len(st) == len(lines):
             emit("unstable", ["view", os.path.join(d, "s.gaf"), "-g", gfa, "-f", "unstable", "-o", os.path.join(d, "o3")], st, os.path.join(d, "o3"))
         emit("node_stable", ["view", gaf, "-n", "s2", "-g", gfa, "-f", "stable", "-o", os.path.join(d, "o4")], lines, os.path.join(d, "o4"))
+        # the same path, now holding the BGZF form of the same records (what `sort --bgzip -o` or a re-compression leaves):
+        # the reader decides by content, in this process it has read the path as plain text a moment ago
+        write_text(gaf, join_lines(lines, fid), "bgzf", block=250)
+        run_cli(["index", gaf, gfa])
+        emit("node_same_path_now_bgzf", ["view", gaf, "-n", "s1", "-o", os.path.join(d, "o6")], lines, os.path.join(d, "o6"))
+        write_text(gaf, join_lines(lines, fid))
         if do_realign:
             fa = os.path.join(d, "r.fa")
             rlines, extra_reads = lines, []
@@ -92,6 +99,9 @@ def run_file(job):
                 import random as _r
 
                 big = "".join(_r.Random(11).choice("ACGT") for _ in range(60010))
+                if not open(gfa).read().endswith("\n"):
+                    with open(gfa, "a") as f:
+                        f.write("\n")
                 with open(gfa, "a") as f:
                     f.write(f"S\ts3\t{big}\tLN:i:{len(big)}\tSN:Z:chr1\tSO:i:{len(N1) + len(N2)}\tSR:i:0\nL\ts2\t+\ts3\t+\t0M\n")
                 short = N1[2:22]
